@@ -60,6 +60,8 @@ def run(ck):
     # ---- clause 1: register_dispatcher ------------------------------------------------------------
     rd = ck.body("1", "LoopHandle::register_dispatcher")
     some_stores = [i for i, j, st in T.stores_to_field(rd, "source") if st["rv"]["r"] == "use" and any(v[1] == "Some" for v in T.agg_variant(rd, st["rv"]["o"]))]
+    # the same store spelled `slot.source.insert(..)` / `.replace(..)`
+    some_stores += [cs.bb for cs in T.calls(rd, name=("insert", "replace", "get_or_insert", "get_or_insert_with"), path="std::option::Option") if not rd.is_cleanup(cs.bb) and T.path_has(rd, cs.args[0], ".source")]
     regs = T.calls(rd, name="register", trait="EventDispatcher", self_kind=("dyn",))
     ck.floor("1", "register_dispatcher: slot store + register call", len(some_stores) + len(regs), 2)
     for r in regs:
